@@ -123,6 +123,24 @@ theorem C12_stops_pulling (limit : Nat) (items : List Item) :
 example : pulled 3 (chunks [[1, 2], [3, 4], [5]]) = (2, false) := by decide
 example : pulled 3 (chunks [[1, 2], [3]]) = (2, true) := by decide
 
+/-- **C12_pulled_shortest**: on an error-free stream that overflows, the pulled items together
+exceed the limit — with `C12_stops_pulling` the extractor pulls exactly the shortest prefix of the
+stream that is over the limit, never more. -/
+theorem C12_pulled_shortest (limit : Nat) (cs : List Bytes) (k : Nat)
+    (h : collect limit (chunks cs) = .overflow k) :
+    itemsBytes ((chunks cs).take (pulled limit (chunks cs)).1) > limit := by
+  have := pulledFrom_overflow_exceeds limit (chunks cs) [] k (by simpa [collect] using h)
+  simpa [pulled] using this
+
+/-- **C12_schedule_independent**: any interleaving of `Pending`s into the stream's answers leaves
+every state of the loop, hence the result, unchanged (all schedules, not a sample). -/
+theorem C12_schedule_independent (limit : Nat) (ps : List PollEv) :
+    finish (ps.foldl (stepPoll limit) (.run [])) = collect limit (readyItems ps) := by
+  rw [stepPoll_fold]; rfl
+
+example : readyItems [.pending, .ready (.chunk [1]), .pending, .pending, .ready (.chunk [2])] =
+    chunks [[1], [2]] := by decide
+
 /-! ## 3. declared Content-Length -/
 
 /-- **C12_declared**: a declared length above the limit is refused on the header alone (nothing
@@ -240,6 +258,19 @@ def expandD (k : Nat) (bs : Bytes) : Bytes := bs.flatMap (fun x => List.replicat
 
 theorem expandD_append (k : Nat) (a b : Bytes) : expandD k (a ++ b) = expandD k a ++ expandD k b := by
   simp [expandD, List.flatMap_append]
+
+/-- **C12_end_to_end_chunking_independent**: the three header-reading extractors behind a lawful
+decoder: for a fixed declared length the complete result (body or error) is the same for every
+segmentation of the wire image. -/
+theorem C12_end_to_end_chunking_independent {σ : Type} (c : Codec σ) (s0 : σ) (D : Bytes → Bytes)
+    (hl : Lawful c s0 D) (dflt limit : Nat) (d : Decl) (cs cs' : List Bytes)
+    (h : cs.flatten = cs'.flatten) :
+    httpMessageBody dflt limit d (decodeItems c s0 (chunks cs)) =
+      httpMessageBody dflt limit d (decodeItems c s0 (chunks cs')) ∧
+    jsonBody limit d (decodeItems c s0 (chunks cs)) = jsonBody limit d (decodeItems c s0 (chunks cs')) ∧
+    urlEncoded limit d (decodeItems c s0 (chunks cs)) = urlEncoded limit d (decodeItems c s0 (chunks cs')) := by
+  have e := C12_decoded_chunking_independent c s0 D hl limit cs cs' h
+  simp only [httpMessageBody, jsonBody, urlEncoded, e, and_self]
 
 /-- a concrete stateless codec satisfying the law (each wire byte decodes to `k` copies), so that
 the hypothesis `Lawful` is not vacuous -/
